@@ -88,7 +88,7 @@ def handleApi (j : Json) : Except String Json := do
   let embedded := match readEmbeddedStyleMap pkg with
     | .ok s => ostr s
     | .error e => Json.mkObj [("err", Json.str (errName e))]
-  match apiConvert pkg fuel base world id opts with
+  match apiConvert pkg fuel base world (Ops2.transformOfJson j) opts with
   | .ok r =>
     pure <| Json.mkObj [
       ("value", str r.value), ("messages", Json.arr (r.messages.map str).toArray),
